@@ -40,3 +40,6 @@ def C12_pct_host(rec, failure):
 
 
 C13_curie_nomatch_empty_prefix = _sig('C13/curie-nomatch-empty-prefix')
+
+C05_html_offsets_missing_node_metadata = _sig('C05/html-offsets-missing-node-metadata')
+C05_offsets_invalid_utf8_grapheme_panic = _sig('C05/offsets-invalid-utf8-grapheme-panic')
